@@ -5,6 +5,7 @@
 import AY.Driver.Codec
 import AY.Driver.OpsC17
 import AY.Driver.OpsC20
+import AY.Driver.OpsC06
 open Lean AY AY.Codec
 
 def parseDocs (j : Json) : Except String (List (Env × Raw)) :=
@@ -95,6 +96,8 @@ def dispatch (j : Json) : Json :=
   | .ok (.str "c17path") => AY.OpsC17.opC17Path j
   | .ok (.str "c17reserved") => AY.OpsC17.opC17Reserved j
   | .ok (.str "c20") => opC20 j
+  | .ok (.str "c06") => AY.OpsC06.opC06 j
+  | .ok (.str "c06path") => AY.OpsC06.opC06Path j
   | _ => Json.mkObj [("bad", .str "unknown op")]
 
 partial def loop (h : IO.FS.Stream) (out : IO.FS.Stream) : IO Unit := do
